@@ -206,4 +206,64 @@ func init() {
 		Assume:  append([]string{"encoding/json.Unmarshal modelled exactly for bool / integer targets (JSON integer grammar, range check); other targets are not encoded", "bytes texts with non-zero trailing bits: acceptance unspecified"}, driverAssume...),
 		Outside: []string{"float / double / 64-bit and well-known-type text conversion (protojson / encoding/json reflection is not encoded) - N/A part", "real JSON / protobuf body codecs and gzip: the claim is the plumbing (which bytes reach which codec on which (sub)message, params after the body, first message only) and the string / bytes / enum / int32 / bool conversions"},
 	})
+
+	// ---- Stage 3: clauses decided through the real ServeHTTP / serveGRPC / serveGRPCWeb drivers ----
+	ext := func(id string, note string, hs ...HarnessSpec) {
+		p := props[id]
+		p.Harnesses = append(p.Harnesses, hs...)
+		for k := range p.Bounds {
+			p.Bounds[k] += "; " + note
+		}
+		p.Assume = append(p.Assume, driverAssume...)
+	}
+	ext("C05", "drivers: unary calls through serveGRPC / serveHTTP / serveGRPCWeb with handler codes 1..17 and symbolic messages of 0..2 bytes (gRPC: 0..2|4), Twirp and negotiated error bodies, gRPC-web binary and text mode over HTTP/1.1 and HTTP/2 with reply payloads of 0..3 bytes (all residues mod 3)",
+		HarnessSpec{Name: "VerifH_serveGRPC", Covers: []string{"ok", "failed", "out-of-range-code"}},
+		HarnessSpec{Name: "VerifH_serveHTTP_status", Covers: []string{"ok", "twirp", "status-body", "out-of-range-code"}},
+		HarnessSpec{Name: "VerifH_grpcweb", Covers: []string{"ok", "text", "binary", "http2", "trailers-only"}})
+	props["C05"].Outside = append(props["C05"].Outside, "WebSocket close frame (the block is inline behind ws.UpgradeHTTP, which needs a hijackable connection; by reading the close reason is never truncated to 123 bytes - D16)", "status details (proto.Marshal of the details is not encoded)", "json.Marshal of the Twirp error is modelled for messages that need no escaping")
+	ext("C14", "drivers: header and trailer metadata (symbolic 1..2 byte values) set by the handler through grpc.SetHeader / SetTrailer, forged grpc-status / grpc-message trailers, as seen by the client through the ResponseWriter model on gRPC and in the gRPC-web trailer frame / trailers-only headers",
+		HarnessSpec{Name: "VerifH_serveGRPC", Covers: []string{"ok", "failed"}},
+		HarnessSpec{Name: "VerifH_grpcweb", Covers: []string{"ok", "trailers-only"}})
+	ext("C15", "driver: grpc-timeout header through serveGRPC: one digit x every unit (deadline seen by the handler) and every ASCII string of 1..3 bytes that decodeTimeout rejects (400, handler never invoked)",
+		HarnessSpec{Name: "VerifH_serveGRPC_timeout", Covers: []string{"malformed", "deadline", "zero-timeout", "sub-second"}})
+	props["C15"].Assume = append(props["C15"].Assume, "frozen clock: time.Now() is the zero Time, time.Until(t) = t - now; no timers run", "context.WithTimeout / WithCancel interpreted from source")
+	ext("C06", "transport reachability and gRPC-web framing: unary gRPC-web calls in binary and base64 text mode over HTTP/1.1 and HTTP/2",
+		HarnessSpec{Name: "VerifH_grpcweb", Covers: []string{"ok", "text", "binary", "http2"}})
+	addProp(&PropSpec{
+		ID: "C18",
+		Harnesses: []HarnessSpec{
+			{Name: "VerifH_serveGRPC", Covers: []string{"interceptor", "stats", "ok", "failed"}},
+			{Name: "VerifH_serveHTTP_status", Covers: []string{"interceptor", "stats", "ok", "twirp", "status-body"}},
+			{Name: "VerifH_grpc_recv", Covers: []string{"stats-inpayload"}},
+			{Name: "VerifH_grpc_send", Covers: []string{"stats-outpayload"}},
+		},
+		Bounds: map[string]string{
+			"quick":    "one unary RPC per run through serveGRPC and serveHTTP with every combination of {stats handler, unary interceptor} on/off x {success, failure with code 1..17 and a symbolic message}; request payloads of 0..2 bytes; payload stats on single gRPC frames of 0..7 bytes",
+			"thorough": "same",
+		},
+		Assume:  driverAssume,
+		Outside: []string{"stream interceptors and streaming shapes through the drivers (unary only)", "proxied handlers over a real backend", "WebSocket stats (D28 by reading: End carries the upgrade error instead of the handler error)", "the relational 'options never change the outcome' clause is discharged by asserting the same client-visible oracle under every option combination"},
+	})
+	addProp(&PropSpec{
+		ID: "C09",
+		Harnesses: []HarnessSpec{
+			{Name: "VerifH_entry", Covers: []string{"grpc-web-entry", "grpc-entry", "http-entry"}},
+			{Name: "VerifH_match_tokencap", Covers: []string{"rejected", "dispatched"}},
+			{Name: "VerifH_params", Covers: []string{"through-list", "through-map", "unknown-key"}},
+			{Name: "VerifH_addRule_mut", Covers: []string{"invalid-rejected", "unspecified"}},
+			{Name: "VerifH_proto_wire", Covers: []string{"bad-prefix", "prefix>=2^63", "truncated"}},
+			{Name: "VerifH_json_wire", Covers: []string{"unbalanced", "incomplete"}},
+			{Name: "VerifH_grpc_recv", Covers: []string{"over-limit", "truncated", "stats-inpayload"}},
+			{Name: "VerifH_codes", Covers: []string{"out-of-range"}},
+			{Name: "VerifH_negotiate_raw", Covers: []string{"done"}},
+			{Name: "VerifH_timeout", Covers: []string{"rejected-shape", "rejected-nondigit"}},
+			{Name: "VerifH_match_sound", Covers: []string{"dispatched", "not-dispatched"}},
+		},
+		Bounds: map[string]string{
+			"quick":    "every harness listed runs with 'a panic escaping the code under test or a path exhausting the 2e6-step budget is a violation' as obligation: requests over {HTTP/1, HTTP/2} x {GET, POST} varying one of content type (10 shapes incl. symbolic suffixes), Accept (5 shapes incl. 0..3 symbolic bytes), path (incl. 0..3 symbolic bytes), body (0..6 symbolic bytes through the gRPC / gRPC-web / transcoding entries); paths of 58..62 tokens plus 0..5 symbolic bytes at the 64-token cap; the kernel harnesses of C01, C03, C05, C08, C15, C16, C17 at their quick bounds",
+			"thorough": "the same harnesses at their thorough bounds",
+		},
+		Assume:  append([]string{"all media types are served by the recording codec (protobuf-go's real codecs cannot run on fake messages)"}, driverAssume...),
+		Outside: []string{"the HTTP/2 server, ws.UpgradeHTTP and WebSocket frame I/O", "user-supplied interceptors", "real protobuf / JSON codecs and gzip"},
+	})
 }
